@@ -105,6 +105,13 @@ CHECKS = {
         technique="Lean 4 theorems over regenerated definitions (translator) + Float correspondence + numerical validation of the specification",
         ref="DESIGN.md §5 C13",
     ),
+    "C16": dict(
+        category="proof",
+        text="The grid is modelled as an arbitrary finite abelian group and wave vectors as its characters (covers every dimension, even/odd shapes). Theorems (Mathlib, kernel-checked): the structure factor |sum f psi(-g)|^2/(N sum|f|^2) is non-negative; invariant under multiplication by any non-zero constant, under translation by any group element (|psi| = 1), under every automorphism of the grid with the spectrum re-indexed by the dual map (reflections and axis permutations), and for real fields under reflection wave vector by wave vector; Plancherel (parseval) and hence sum over non-trivial characters = 1 - |sum f|^2/(N sum|f|^2) (sf_sum); wave numbers 2 pi m/(n dx) scale inversely with the grid size; option logic (smoothing None/'none'/0 off, requested wave numbers returned exactly, add_zero prepends (0,1)) for every smoother. An executable naive DFT (Float) is compared with the real get_structure_factor(smoothing=None) on small grids; all clauses incl. the smoothed variant are checked on the real code for random fields in 1-3-D.",
+        note="Trusted: Lean kernel; propext/Classical.choice/Quot.sound; fftn(norm='ortho') = unitary DFT over the characters exp(2 pi i m.g/n) (FFT-library contract, checked against the naive DFT); SmoothData1D as is; the executable Float model is the evaluation of the abstract definition at those characters (by inspection).",
+        technique="Lean 4 theorems (Mathlib character orthogonality) + naive-DFT correspondence",
+        ref="DESIGN.md §5 C16",
+    ),
 }
 
 NOT_APPLICABLE = {}
